@@ -99,7 +99,9 @@ OPS = ["sm2_keygen", "sm2_sign", "sm2_sign_ctx", "sm2_decrypt", "sm2_decrypt_bad
        # a record is altered in flight (handshake phase or application phase): the failure paths of record protection
        "hs_tlcp_tamper", "hs_tls12_tamper", "hs_tls13_tamper", "hs_tls13_mutual_tamper", "hs_tlcp_apptamper", "hs_tls12_apptamper", "hs_tls13_apptamper",
        # the connection dies inside an application record (header and part of the body arrive, then EOF) after data was exchanged
-       "hs_tlcp_appcut", "hs_tls12_appcut", "hs_tls13_appcut", "hs_tls13_appcut"]
+       "hs_tlcp_appcut", "hs_tls12_appcut", "hs_tls13_appcut", "hs_tls13_appcut",
+       # one side closes (tls_shutdown) while data sent by the peer is still unread in flight
+       "hs_tlcp_shutunread", "hs_tls12_shutunread", "hs_tls13_shutunread"]
 case_s = st.fixed_dictionaries({"op": st.sampled_from(OPS), "seed": st.integers(0, 1 << 20), "n": st.integers(1, 200)})
 
 _PKI = {}
@@ -175,6 +177,16 @@ def _handshake(ctx, proto, mutual, defect, seed, secrets):
                 s.client.do("recv", 4096, timeout=10.0)
                 if defect != "apptamper":
                     break
+            if defect == "shutunread":
+                snd, rcv = (s.client, s.server) if seed & 1 else (s.server, s.client)
+                late = hashlib.shake_128(b"c19 late %d" % seed).digest(150)
+                secrets["application plaintext (unread at close)"] = late
+                snd.do("send", late)
+                if seed & 2:
+                    snd.do("send", late[::-1])
+                    secrets["application plaintext (unread at close, 2)"] = late[::-1]
+                rcv.do("shutdown", timeout=10.0)
+                snd.do("recv", 4096, timeout=10.0)
             if defect == "appcut":
                 snd, rcv = (s.client, s.server) if seed & 1 else (s.server, s.client)
                 state["cut"] = True
@@ -228,7 +240,7 @@ def ops(case, ctx):
             parts = op.split("_")
             proto = parts[1]
             mutual = "mutual" in parts or "badclient" in parts
-            defect = next((x for x in ("untrusted", "badclient", "apptamper", "appcut", "tamper") if x in parts), None)
+            defect = next((x for x in ("untrusted", "badclient", "apptamper", "appcut", "shutunread", "tamper") if x in parts), None)
             _handshake(ctx, proto, mutual, defect, seed, secrets)
             # the random values sent in the clear (hello randoms, key shares' public part) are not secrets, but the first
             # 32-byte draws also contain them: keep only draws that never appear on the wire - decided below by exclusion
